@@ -28,6 +28,8 @@ pub fn opts() -> GenOpts {
     o.env_only = false;
     // a failure with items on the line is a failure, whatever `fallback_to_usage` says
     o.usage_fallback = true;
+    // `--point X [Y]`: a defaulted word at the end of an adjacent group
+    o.adjacent_optional_words = true;
     o
 }
 
@@ -190,6 +192,11 @@ pub fn run_case(case: &mut Case) {
             Some(u) => u,
             None => continue,
         };
+        if super::c19::absent_words_then_word(&b.spec, &units) {
+            // a block whose defaulted words are absent takes the word that follows it
+            case.rep.count("skipped:word-right-after-block-with-absent-optional-words");
+            continue;
+        }
         let line = render(&units, &mut rng, SpellStyle::Canonical);
         // absent defaulted items never cause a failure; present valid ones are delivered
         let class = if di % 2 == 0 {
